@@ -21,20 +21,27 @@ MANIFEST = dict(
     technique="Lean 4 theorems over a hand-written model of findall/_findall/findfirst that threads the two mutable default "
               "arguments as explicit state + differential correspondence with the implementation (results in order, exception "
               "class, contents of _findall.__defaults__ after every call) + the statement executed on the implementation",
-    text="Lean (Props/C19.lean), all unbounded in tree size, depth, expression and history length: "
-         "C19_state_invariant - a search started from the fresh default objects ([], {}) leaves them ([], {}), for every "
-         "tree, expression and outcome (also exceptions); C19_history_independent - in every sequence of searches each "
-         "result equals the result of the same search run alone; C19_findfirst_state - the same for findfirst; "
-         "C19_pure - every value returned is a node of the searched tree (the model returns values only; real "
-         "immutability is checked by the evaluator); C19_exact_path - for a dict-rooted tree with plain keys the canonical "
-         "path of a node reached through keys and indexes of container elements finds exactly one pair (that path, that "
-         "node); C19_resolves - that key resolves through the item-access model (C01 engine) to the same node; "
-         "C19_findfirst - findfirst is the first pair / (None, None) / IndexError exactly as documented; C19_fanout - a "
-         "name applied to a list is the [*] step followed by the name, visiting every element in order. Counter-example "
-         "theorems for the open findings: C19_list_root_index_cex, C19_dotdot_cex, C19_text_key_cex, "
-         "C19_scalar_in_list_cex. Stated, differential only: C19_descendant_complete_stmt ('//*/name' = all nodes "
-         "called name, evaluator 'descendant' against an independent DFS), C19_resolves_all_stmt (every key of every "
-         "result resolves; evaluator 'resolves').",
+    text="Lean (Props/C19.lean), all unbounded in tree size, depth, expression and history length, for the code with "
+         "fixes C19-a/C19-b applied: C19_state_invariant - a search started from the fresh default objects ([], {}) leaves "
+         "them ([], {}), for every tree, expression and outcome (exceptions included); C19_objects_untouched - no call of "
+         "_findall modifies the stack dict it received and an empty path list stays empty; C19_list_changes_last_only - a "
+         "call changes at most the last element of the list it received; C19_history_independent - in every sequence of "
+         "searches on the same or different trees each result equals the result of the same search run alone; "
+         "C19_findfirst_state - the same for findfirst; C19_pure - every value returned occurs in the tree searched (the "
+         "model returns values only; that the real code does not write into the tree is checked by the evaluators); "
+         "C19_exact_path - for a dict-rooted tree the canonical xpath of a non-root position made of plain keys and of "
+         "indexes of container elements finds exactly one pair (that xpath, that node); C19_resolves - that key resolves "
+         "through the item-access model (C01 engine) to the same node, tree unchanged; C19_findfirst - findfirst is the "
+         "single pair / (None, None) / IndexError exactly as documented; C19_fanout, C19_fanout_all - a name applied to a "
+         "list of containers is the [*] step followed by the name and returns the merged outcomes of all elements in "
+         "order under the paths ...[i]. Counter-example theorems: C19_text_key_cex (open finding C19-c), "
+         "C19_scalar_in_list_cex (outside the quantifier). Stated, differential only: C19_descendant_complete_stmt "
+         "('//*/name' = all nodes called name and nothing else; evaluator 'descendant' against an independent DFS), "
+         "C19_resolves_all_stmt (every key of every result without a text() step resolves; evaluator 'search'). The model "
+         "is compared with the real findall/_findall/findfirst on results in order, exception class and the contents of "
+         "_findall.__defaults__ after every call, single searches and sequences; the statement itself (identity `is`, "
+         "tree unchanged, defaults empty, in-sequence == freshly loaded module, fan-out, descendant, findfirst) is "
+         "executed on the implementation.",
     note="keys are plain names (an n0dict resolves keys containing '/' or '[' as xpaths); lower()/isnumeric() beyond ASCII "
          "are outside the model (answered 'unsupported'); object identity is checked on the implementation only.",
     design_ref="5/C19",
@@ -510,7 +517,7 @@ KNOWN = {"search": text_step, "exact": None, "fanout": None, "descendant": None,
 def case_valid(ev, c):
     try:
         if ev == "history":
-            return all(valid_tree(t) and lists_ok(t) for t in c["trees"]) and len(c["trees"]) == len(c["modes"]) and all(m in ("n0", "wrap") for m in c["modes"]) \
+            return all(valid_tree(t) for t in c["trees"]) and len(c["trees"]) == len(c["modes"]) and all(m in ("n0", "wrap") for m in c["modes"]) \
                 and all(isinstance(s, (list, tuple)) and len(s) == 2 and isinstance(s[0], int) and 0 <= s[0] < len(c["trees"]) and isinstance(s[1], str) for s in c["steps"]) and len(c["steps"]) > 0
         if not (valid_tree(c["tree"]) and lists_ok(c["tree"]) and c["mode"] in ("n0", "wrap")):
             return False
